@@ -143,6 +143,51 @@ E["C18"] = dict(
     note="Trusted: GNU sed 4.9 --posix as reference; the regex engine is a parameter (driver carries a small BRE matcher for the generator's pool). Not modelled: r/R/W/Q/z, k flag, I modifier. "
          "One recorded finding (N at end of input prints the pattern space, GNU default behaviour).",
     tech="Lean 4 proof about a reference executor (range automaton = spec, substitution law, hold-space algebra) + three-way differential correspondence with GNU sed")
+E["C01"] = dict(
+    text="PARTIAL by nature: memory safety of the unmodelled bulk of the interpreter is only sampled. Lean 4 theorems (Props/C01.lean, 13) over tables REGENERATED from the "
+         "source on every run by clang-AST translators that fail closed (extract/fnc_dispatch.py, loops.py, div_sites.py, flag_sites.py): tagged_value_dispatch (each of the 46 "
+         "casts of an argument value to a concrete value struct in fnc.c/mod-str.c/mod-hawk.c/misc.c/std.c/rec.c/rio.c is dominated only by the type tags that denote that struct), "
+         "flag_index_range (every value set_global can store into gbl.ignorecase indexes the two-element arrays in range at all 8 uses), div_guards (every hawk_int_t / and % site in "
+         "the evaluator and the constant folder is dominated by guards excluding 0 and (INT_MIN,-1)), index_bounds (regions handed to the finders by substr/index/match lie inside "
+         "the subject, with C's signed/unsigned wrap modelled), halt_polled (every script- or count-controlled loop polls the halt flag each iteration; the only unpolled while(1) "
+         "loops are the four format grow-and-retry loops), the repaired exponent loop is bounded by 64 iterations, failures carry a non-zero error number, model totality. "
+         "Campaign: grammar-generated + template + byte/token-mutated programs (all 100 builtins/module functions) x input shapes x trait sets, in-process under ASan/UBSan/asserts "
+         "with a statement heartbeat, repeated halt requests and a SIGKILL watchdog; any signal, sanitizer report, errnum 0 on failure, unanswered halt or unclean close is a violation.",
+    note="Trusted: the extractors (shapes they do not understand fail the check); run.c/val.c casts are dispatched through function tables and are not in the table. 11 recorded findings "
+         "(container lifetime family in run.c indexed access, rec.c NF/getline corner crashes, native stack overflow on destroying deeply nested maps = C14).",
+    tech="Lean 4 proof over guard/dispatch/loop tables regenerated from the source (translators) + sanitizer campaign as correspondence and search")
+E["C04"] = dict(
+    text="Lean 4 theorems (Props/C04.lean, 25) about an executable transcription of hawk_rtx_readio's four record-separator branches and the console file chain "
+         "(NEXT, FNR reset, FILENAME, NR/FNR): records_chunk_independent — for newline (CR stripping), single-character and paragraph modes, for EVERY chunking of the "
+         "input into non-empty reads and from any reader state, the records equal a declarative splitter of the bytes; the (NR,FNR,FILENAME,record) sequence of any list of "
+         "files equals the spec's and the end of a file ends the record (file_end_ends_record). Regex RS: the same under an explicit hypothesis Stable m (proved for literal "
+         "separators), with a machine-checked counterexample for extensible patterns (records_chunk_independent_regex_partial, unstable_counterexample) = the recorded finding. "
+         "Harness: custom console handler serving the same bytes under scripted chunkings (all 2^(n-1) chunkings of short inputs), the real std.c chain over temp files, getbline path; "
+         "oracle: same bytes under different chunkings give the same records, python reference splitter; then diff with the model incl. in.pos/len/eof.",
+    note="Not modelled: handler error returns, sio/tio decoding below the handler (C15), the nrflt filter; hawk_rtx_readiobytes is the same text over bytes and is run, not modelled separately. "
+         "One recorded finding (regex RS whose match can be extended across a read boundary).",
+    tech="Lean 4 proof (chunk-independence by induction over chunk lists; regex mode partial under Stable) + schedule-independence oracle + differential correspondence")
+E["C09"] = dict(
+    text="PARTIAL (interleaving at API-call granularity, no threads). Lean 4 theorems (Props/C09.lean, 23) about a state-machine model of the embedding API (shared read-only "
+         "program + call-site cache; per-context run-time stack with stack_top, value heap with explicit reference counts, exit level, halt; open/call/loop/setgbl/getgbl/halt/close, "
+         "clear/parse): noninterference (for any interleaving a context's observations equal those of its own ops run alone on a fresh interpreter; the only shared write, the "
+         "call-site cache, is value-determined and idempotent), usable_after_failed_call (stack and exit level restored after EDIVBY0/ESTACK/EFUNNF/EARGTM at any depth; only exit/halt "
+         "latch; loop unlatches), ownership_balanced / call_leaves_arguments / no_dangling / close_releases_all (reference counts exact on success, failure and exit paths), "
+         "clear_then_parse_eq_fresh. Harness: one interpreter, 2-3 contexts, generated interleavings also run as per-context projections on fresh interpreters (observations and "
+         "live-block counts must match), counting allocator + ASan; then diff with the Lean driver.",
+    note="Not modelled: awk-level by-ref copy-back, pattern-action blocks, pipes, the collector (C07), modules; true thread-level concurrency.",
+    tech="Lean 4 proof (non-interference and ownership invariants over API-operation histories) + projection oracle on the real API + differential correspondence")
+E["C17"] = dict(
+    text="PARTIAL (expression language proved; statements, getline forms, redirections, regex/string escapes, renaming tied by correspondence only). Lean 4 theorems "
+         "(Props/C17.lean, 13) about print_expr (as repaired) and a precedence-ladder parser driven by tables REGENERATED from parse.c/tree.c on every run (extract/precedence.py: token "
+         "table, get_symbols ops[], the parse_expr..parse_primary ladder with each binmap, unary/inc maps, opcode enums, the *_str spelling tables; fails closed): roundtrip_exact "
+         "(parse(print a) = norm a for every well-formed tree), roundtrip_twice (second generation accepted, third = second textually), every operator spelling lexes back to exactly one "
+         "level's opcode, print_no_glue (adjacent printed tokens never lex differently; the cut rule agrees with the C symbol walk by kernel decide), nesting growth. "
+         "Harness: full-language generated programs P -> D1 -> D2 -> D3 through `hawk -d`; acceptance, stdout, files, exit status and error class of P, D1, D2 compared on the real code "
+         "(oracle), then D1 compared with the model's print(parse P) for expression programs.",
+    note="The converse (image of parse is within WFparse) and fuel sufficiency of lexer/parser are not proved. Two recorded findings (50+-operator left chains deparse beyond the parse depth limit; "
+         "folded non-finite constants print as `inf`).",
+    tech="Lean 4 proof (printer/parser round trip over tables regenerated from the source) + behavioural round-trip oracle on the real deparser + differential correspondence")
 
 claimed = sorted(E)
 checks = []
